@@ -8,7 +8,7 @@ from ..cfg import NORMAL, Node
 from ..core import Ctx
 from ..flow import ALL, find_path, names_in
 from ..model import AnalysisError, FunctionInfo, dotted, norm_text
-from .common import (edge_target, hint_write_nodes, hint_writers, is_const, kwarg, normal_continuation,
+from .common import (edge_target, hint_write_nodes, hint_writers, is_const, kwarg, normal_continuation, null_edges,
                      reachable_from)
 
 EXPLANATION = (
@@ -46,6 +46,10 @@ def check(ctx: Ctx) -> None:
         o.rule = "C01.R9"
     ctx.rule_text["C01.R9"] = ctx.rule_text.pop("C04.R3")
     ctx.floors["C01.R9"] = ctx.floors.pop("C04.R3")
+    # "every commit that raised is not reflected at all": nothing may raise out of commit() after the commit point
+    from .c04 import r2 as c04_r2
+    ctx.shared(c04_r2, "C04.R2", "C01.R10", "a commit that raised is not reflected")
+    r11(ctx)
 
 
 def commit_fn(ctx: Ctx) -> FunctionInfo:
@@ -438,6 +442,23 @@ def r5(ctx: Ctx, rid: str = "C01.R5") -> None:
             break
     ctx.ob(rid, f, "empty transaction reaches no commit point", eb[0] if eb else None, ok or not eb,
            "an empty commit creates no snapshot / metadata version")
+
+
+def r11(ctx: Ctx, rid: str = "C01.R11") -> None:
+    ctx.rule(rid, "success means committed: every normal exit of Transaction.commit() has passed a commit-point call (or is the "
+             "empty-transaction return); giving up after the retries raises", 1)
+    f = ctx.fn("transaction.Transaction.commit")
+    g = ctx.cfg(f)
+    from .c04 import commit_chain
+    cps = [n for ff, n, _w in commit_chain(ctx) if ff.qname == f.qname]
+    if not cps:
+        raise AnalysisError("no commit-point call in Transaction.commit")
+    empty_edges = null_edges(g, "self._operations")
+    w = find_path(g, g.entry, [g.exit], avoid=[c.id for c in cps], labels=NORMAL,
+                  edge_ok=lambda s_, d_, l_: (s_, d_) not in empty_edges)
+    ctx.ob(rid, f, "no normal exit without a commit point", cps[0], w is None,
+           "a commit() that returns (True or None) without having flipped the pointer reports success for rows that are not "
+           "in the table", witness=ctx.path_witness(f, w))
 
 
 def r6(ctx: Ctx) -> None:
